@@ -909,6 +909,9 @@ class TrS:
             lname, " (R : sv_recs)" if self.in_rec else "", "".join("(%s : pyval) " % p for p in inv_params), st_ty,
             elt_ty, "".join("(%s : pyval) " % p for p in st_params))
         exit_ = "k_after %s" % (" ".join(st_params) if st_params else "tt")
+        if lname not in body:
+            # every path of the body leaves the function (or declines): no recursion to declare
+            sig = sig.replace("Fixpoint ", "Definition ", 1).replace(" {struct l}", "").replace("{struct l} ", "")
         self.loops.append("%s\n  match l with\n  | [] => %s\n  | %s :: l' =>\n   %s\n  end." % (sig, exit_, pat, body))
 
         # ---- the call: the code after the loop (its else clause first) is the continuation
